@@ -71,6 +71,7 @@ def scenarios(ctx):
     for k, s in enumerate(scn):
         s["via"] = "cli" if k % (9 if quick else 15) == 0 else "lib"
         s["seed"] = k
+        s["stale"] = k % 4 == 2   # the output files already exist, written by an earlier invocation with other parameters
     return scn
 
 
@@ -84,6 +85,14 @@ def execute(ctx, scn, events, tids, next_tid):
     inp.write_bytes(data)
     st, pf = d / "storage.hex", d / "part.hex"
     err = None
+    if scn.get("stale"):
+        # history: an earlier invocation (other content, other addresses) wrote the same two output files
+        prev = d / "prev.suit"
+        prev.write_bytes(content(scn["size"] + 37, scn["seed"] + 5))
+        try:
+            ImageCreator.create_files_for_update(str(prev), str(st), str(pf), 0x2000, 0x100000, (scn["caches"] + 3) % 17)
+        except Exception:
+            pass
     if scn["via"] == "lib":
         try:
             ImageCreator.create_files_for_update(str(inp), str(st), str(pf), scn["uci"], scn["part"], scn["caches"])
@@ -124,6 +133,7 @@ def judge(ctx, events, tids, label):
                       replay={"scenario": scn, "file": kind, "clause": b["clause"], "record": b["i"]})
 
 
+# (scenario field "stale": the two output files already exist when the judged invocation starts)
 def run(ctx: core.Check):
     ctx.cov["rule"] = ("scenario = (envelope size, partition address, candidate-info address, cache count, library|CLI); "
                        "sizes at 0/1/16-byte record and 64 KiB boundaries, addresses crossing 64 KiB and 16 MiB extended-address "
